@@ -368,6 +368,21 @@ func (r *Report) writeEvidence(verifDir string, nDis, nVio, nKnown, nUnd, nNontr
 	if len(r.NotCover) > 0 {
 		expl.WriteString("NOT decided: " + strings.Join(r.NotCover, "; ") + ".")
 	}
+	if r.Trusted == nil {
+		r.Trusted = []string{}
+	}
+	if r.Notes == nil {
+		r.Notes = []string{}
+	}
+	if r.Errors == nil {
+		r.Errors = []string{}
+	}
+	if r.Floors == nil {
+		r.Floors = []Floor{}
+	}
+	if samples == nil {
+		samples = []interface{}{"no obligation was generated (see inconclusive)"}
+	}
 	cov := map[string]interface{}{
 		"explanation":         expl.String(),
 		"evaluations":         len(r.Obls),
